@@ -35,7 +35,7 @@ CORE_TEXT = (' Imported core-protocol obligations (every behavioural property of
              'protocol, so a change that breaks one of these breaks this property too): PUBLISH-CONFIRM, INTENT-FIRST, '
              'PAY-BEFORE-RELEASE, COVER-ALL + RAII-SPAN, LOCK-SPAN (reference strategy), CLAIM-EMPTY, PAY-CAS, PAY-USED, SLOT-CLOSED, INUSE-FSM, REUSE-FIRST, NEXT-ONCE, '
              'COOLDOWN-OWNED, NODE-STABLE, ADDR-GUARD + GEN-REVALIDATE + REPLACEMENT-FRESH, ADDR-BEFORE-GEN, OWN-STORAGE, MP, RMW-ONLY, '
-             'LEDGER + INC-PROTECTED, BYPASS.')
+             'LEDGER + INC-PROTECTED, BYPASS, the SeqCst floors of both store-buffering pairs (ORD, Dekker roles) and the generation / tag protocol (TAG-TABLE).')
 
 
 def _core(fx, col):
@@ -44,6 +44,12 @@ def _core(fx, col):
               T.rule_cooldown_owned, T.rule_node_stable, I.rule_addr_guard, I.rule_addr_before_gen, I.rule_own_storage,
               O.rule_mp, O.rule_rmw_only, L.rule_ledger, L.rule_bypass, A.rule_lock_span, A.rule_wrapper_pure, R.rule_ptr_exclusive):
         r(fx, col)
+    # both halves of the two store-buffering pairs (the Dekker roles of ORD): a writer that does not see a debt frees the value under
+    # whatever the behavioural property is about
+    O.rule_ord_with_floors(fx, col, only_roles=_ORD_C01)
+    # the generation / tag protocol of the helping path (a generation that never advances lets a later transaction accept the
+    # replacement prepared for an earlier one: a stale load, whatever is layered on top of it)
+    O.rule_tag_table(fx, col)
 
 
 CORE_PROPS = ('C01', 'C02', 'C03', 'C04', 'C05', 'C06', 'C07', 'C10', 'C11', 'C12', 'C14', 'C15', 'C16', 'C17', 'C20')
@@ -197,7 +203,7 @@ def _help_leaves_foreign(fx, col):
         for t in tails:
             n += 1
             cls, why = P.classify_back_edge(cx, b, t, h)
-            col.add('LOOP-CLASS', '%s|loop@%s' % (b.fname, cls or 'unclassified'), cls in P.ADMITTED_WRITER, ('%s: %s' % (cls, why)) if cls else why, b.loc(h))
+            col.add('LOOP-CLASS', '%s|loop@%s' % (b.fname, cls or 'unclassified'), P.cls_admitted(cls, P.ADMITTED_WRITER), ('%s: %s' % (cls, why)) if cls else why, b.loc(h))
     col.floor('LOOP-CLASS', 'retry loops of the helper', n, 1)
 
 
